@@ -188,6 +188,8 @@ type WorkerJob struct {
 	MinBudget int     `json:"min_budget"`
 	OnlySeed  *uint64 `json:"only_seed,omitempty"`
 	Tier      string  `json:"tier,omitempty"`
+	NoMin     bool    `json:"no_min,omitempty"`
+	MaxViol   int     `json:"max_viol,omitempty"`
 }
 
 type KnownFinding struct {
@@ -329,6 +331,8 @@ func seedFromEnv() uint64 {
 }
 
 type runCtx struct {
+	seedBase uint64 // first seed of the batch; worker w runs seedBase + w + k*nworkers
+	nworkers int
 	cfg     propCfg
 	tier    string
 	seed    uint64
@@ -353,7 +357,7 @@ func loadKnown() KnownFile {
 func runWorker(rc *runCtx, job WorkerJob, extraEnv ...string) (*WorkerOut, string, error) {
 	spec, _ := json.Marshal(job)
 	cmd := exec.Command(rc.bin, "-test.run", "^TestWorker$", "-test.timeout", "0")
-	cmd.Env = append(os.Environ(), "VERIF_JOB="+string(spec), "GOMAXPROCS=2", "GOMEMLIMIT=3GiB", "GORACE=halt_on_error=0 history_size=3")
+	cmd.Env = append(os.Environ(), "VERIF_JOB="+string(spec), "GOMAXPROCS=1", "GOMEMLIMIT=3GiB", "GORACE=halt_on_error=0 history_size=3")
 	cmd.Env = append(cmd.Env, extraEnv...)
 	cmd.Dir = verifDir
 	var stderr strings.Builder
@@ -437,6 +441,7 @@ func check(prop, tier string) int {
 	var raceLogs []string
 	restarts := 0
 	var mu sync.Mutex
+	rc.seedBase, rc.nworkers = seedBase, nw
 	var wg sync.WaitGroup
 	trouble := []string{}
 	for w := 0; w < nw; w++ {
@@ -716,6 +721,10 @@ func check(prop, tier string) int {
 			unreproduced = append(unreproduced, fmt.Sprintf("%s/%s seed %d", fv.V.Prop, fv.V.Rule, fv.Seed))
 			continue
 		}
+		if err == nil && !ok && fv.V.Rule != "race" && tryChain(rc, &fv) {
+			ok, hashOK = true, true
+			merged.Inconclusive["violation reproduced only together with the preceding runs of its worker (package-level state in the code under test)"]++
+		}
 		if err != nil || !ok {
 			fmt.Fprintf(os.Stderr, "verifctl: violation %s/%s (seed %d) did not reproduce from %s in a fresh process (err=%v) — harness trouble\n", fv.V.Prop, fv.V.Rule, fv.Seed, fv.Replay, err)
 			return 2
@@ -905,10 +914,74 @@ func merge(outs []*WorkerOut) *WorkerOut {
 }
 
 // replayFile re-executes a replay file in a fresh process.
+// chainSpec: a violation that shows only after the runs that preceded it in the worker process that found it (the code
+// under test keeps state in package-level variables - a pool, a cache - which a fresh process does not have). The replay
+// is then the last runs of that worker's seed sequence, unminimised, in one fresh process.
+type chainSpec struct {
+	SeedBase uint64 `json:"seed_base"`
+	Worker   int    `json:"worker"`
+	Workers  int    `json:"workers"`
+	StartK   int    `json:"start_k"`
+	Runs     int    `json:"runs"`
+	Seed     uint64 `json:"violating_seed"`
+}
+
+func runChain(rc *runCtx, prop, profile, rule string, c chainSpec) (bool, error) {
+	out := filepath.Join(rc.work, fmt.Sprintf("chain-%d.json", time.Now().UnixNano()))
+	job := WorkerJob{Mode: "search", Property: prop, Profile: profile, SeedBase: c.SeedBase, Worker: c.Worker, Workers: c.Workers,
+		StartK: c.StartK, MaxRuns: c.Runs, NoMin: true, MaxViol: 64, Out: out, ReplayDir: filepath.Join(rc.work, "replays-chain")}
+	wo, stderr, err := runWorker(rc, job)
+	defer os.Remove(out)
+	if wo == nil {
+		return false, fmt.Errorf("chain replay failed: %v\n%s", err, tail(stderr, 20))
+	}
+	for _, v := range wo.Violations {
+		if v.Seed == c.Seed && v.V.Prop == prop && v.V.Rule == rule {
+			return true, nil
+		}
+	}
+	return false, nil
+}
+
+// tryChain: called when the minimised replay of fv does not show the violation in fresh processes.
+func tryChain(rc *runCtx, fv *FoundViolation) bool {
+	if rc.nworkers == 0 || fv.Seed < rc.seedBase {
+		return false
+	}
+	off := fv.Seed - rc.seedBase
+	c := chainSpec{SeedBase: rc.seedBase, Worker: int(off % uint64(rc.nworkers)), Workers: rc.nworkers, Seed: fv.Seed}
+	k := int(off / uint64(rc.nworkers))
+	c.StartK = k - 12
+	if c.StartK < 0 {
+		c.StartK = 0
+	}
+	c.Runs = k - c.StartK + 1
+	for i := 0; i < 2; i++ {
+		if ok, err := runChain(rc, fv.V.Prop, rc.cfg.Profile, fv.V.Rule, c); err == nil && ok {
+			rf := map[string]interface{}{"property": fv.V.Prop, "rule": fv.V.Rule, "profile": rc.cfg.Profile, "seed": fv.Seed, "message": fv.V.Msg, "chain": c,
+				"note": "the minimised single run does not show the violation in a fresh process; it shows after the runs that preceded it in the worker (state kept in package-level variables of the code under test). Replay = these runs, in order, in one fresh process."}
+			b, _ := json.MarshalIndent(rf, "", " ")
+			_ = os.WriteFile(fv.Replay, b, 0o644)
+			return true
+		}
+	}
+	return false
+}
+
 func replayFile(rc *runCtx, path string) (reproduced, hashMatch bool, err error) {
 	b, err := os.ReadFile(path)
 	if err != nil {
 		return false, false, err
+	}
+	var cf struct {
+		Property string     `json:"property"`
+		Rule     string     `json:"rule"`
+		Profile  string     `json:"profile"`
+		Chain    *chainSpec `json:"chain"`
+	}
+	if json.Unmarshal(b, &cf) == nil && cf.Chain != nil {
+		ok, err := runChain(rc, cf.Property, cf.Profile, cf.Rule, *cf.Chain)
+		return ok, true, err
 	}
 	var rf struct {
 		Property  string `json:"property"`
@@ -927,7 +1000,7 @@ func replayFile(rc *runCtx, path string) (reproduced, hashMatch bool, err error)
 	po := filepath.Join(rc.work, fmt.Sprintf("probe-%d.json", time.Now().UnixNano()))
 	cl := po + ".crashlog"
 	cmd := exec.Command(rc.bin, "-test.run", "^TestProbe$", "-test.timeout", "0")
-	cmd.Env = append(os.Environ(), "VERIF_PROBE="+path, "VERIF_PROBE_OUT="+po, "VERIF_CRASHLOG="+cl, "GOMAXPROCS=2", "GORACE=halt_on_error=0 history_size=3")
+	cmd.Env = append(os.Environ(), "VERIF_PROBE="+path, "VERIF_PROBE_OUT="+po, "VERIF_CRASHLOG="+cl, "GOMAXPROCS=1", "GOGC=off", "GORACE=halt_on_error=0 history_size=3")
 	cmd.Dir = verifDir
 	var stderr strings.Builder
 	cmd.Stderr = &stderr
